@@ -142,6 +142,10 @@ type Cmd struct {
 	Tag    string   `json:"tag,omitempty"`
 	// Inner: for scripts, the data-modifying commands the script performs
 	Inner [][]string `json:"inner,omitempty"`
+	// HTTP: Raw is an HTTP request; the reply is the response body
+	HTTP bool `json:"http,omitempty"`
+	// Connect: only open the connection and wait for what the server says
+	Connect bool `json:"connect,omitempty"`
 }
 
 func (c Cmd) String() string {
@@ -276,10 +280,13 @@ func (a *Actor) issue() {
 	var b []byte
 	if c.Raw != "" {
 		b = []byte(c.Raw)
-	} else {
+	} else if !c.Connect {
 		b = encodeCmd(c.Args)
 	}
 	s.logf("  a%02d> %s", a.id, clipStr(c.String(), 160))
+	if c.Connect {
+		return
+	}
 	if c.GoLive {
 		a.live = true
 	}
@@ -343,7 +350,15 @@ func (a *Actor) onData(b []byte) {
 	}
 	a.rbuf = append(a.rbuf, b...)
 	for len(a.rbuf) > 0 {
-		v, n, ok, err := parseRESP(a.rbuf)
+		var v rv
+		var n int
+		var ok bool
+		var err error
+		if len(a.outst) > 0 && a.outst[0].Cmd.HTTP {
+			v, n, ok = parseHTTPResponse(a.rbuf)
+		} else {
+			v, n, ok, err = parseRESP(a.rbuf)
+		}
 		if err != nil {
 			a.perr = err
 			s.logf("  a%02d parse error: %v", a.id, err)
@@ -404,4 +419,25 @@ func (a *Actor) close() {
 		a.closed = true
 		a.loseOutstanding()
 	}
+}
+
+// parseHTTPResponse parses one HTTP/1.1 response with Content-Length; the
+// value is a bulk string "status\nbody".
+func parseHTTPResponse(b []byte) (v rv, n int, ok bool) {
+	i := strings.Index(string(b), "\r\n\r\n")
+	if i < 0 {
+		return v, 0, false
+	}
+	head := string(b[:i])
+	lines := strings.Split(head, "\r\n")
+	cl := 0
+	for _, l := range lines[1:] {
+		if k, val, found := strings.Cut(l, ":"); found && strings.EqualFold(strings.TrimSpace(k), "Content-Length") {
+			cl, _ = strconv.Atoi(strings.TrimSpace(val))
+		}
+	}
+	if len(b) < i+4+cl {
+		return v, 0, false
+	}
+	return rv{T: '$', S: lines[0] + "\n" + string(b[i+4:i+4+cl])}, i + 4 + cl, true
 }
